@@ -19,6 +19,7 @@ RULE = ("transactions from the grammar (segwit on/off, 1..3 inputs/outputs, sequ
 ASSUMPTIONS = ["vf/ref/tx_ref.py legacy/witness serialisation defines txid/wtxid (BIP141)"]
 OBLIGATIONS = {
     "concurrent_calls": "interleavings of two concurrent calls (single-case checks in two threads, cold and after warm-up calls)",
+    "huge_tx": "a transaction of more than 1 000 000 / 4 000 000 bytes parsed alone and inside a block",
     "history_sequences": "operation sequences (non-initial process states) explored",
     "segwit_nonfinal_sequence": "a segwit transaction with a sequence other than ffffffff",
     "trailing_byte_inside_tx": "a trailing byte that also occurs inside the transaction",
@@ -170,6 +171,16 @@ def seq_ops(job):
     ops.append(("poke", {"seed": seed, "a": base, "what": "truncated"}))
     ops.append(("poke", {"seed": seed, "a": base, "what": "subparsers"}))
     ops.append(("block", {"seed": seed, "as": [cb, base, leg]}))
+    if job.get("part") == "seq":
+        # pairs of DIFFERENT segwit transactions whose ids agree in 4 bytes (a memo keyed by a short digest cannot tell them
+        # apart): found by a deterministic birthday search over the locktime - wtxid and txid, first and last 4 digest bytes
+        from vf.classes import truncated_digest_collision, h256
+        T0 = make_tx(seed, base, "c04")
+        for name, pre, dg in (("wtxid-first4", T0.ser(), h256), ("wtxid-last4", T0.ser(), lambda b: h256(b)[::-1]),
+                              ("txid-first4", T0.ser_legacy(), h256)):
+            x, y = truncated_digest_collision(lambda i, pre=pre: pre[:-4] + i.to_bytes(4, "little"), digest=dg)
+            for r in (x, y):
+                ops.append(("ids", {"seed": seed, "a": dict(base, locktime=int.from_bytes(r[-4:], "little")), "trailing": "", "tname": "collides in " + name}))
     return ops
 
 
@@ -177,7 +188,7 @@ def jobs(tier, seed):
     nsh = 16 if tier == "quick" else 48
     from vf.runner import seq_jobs
     return [{"name": f"ids/{sh}", "part": "ids", "shard": [sh, nsh], "weight": 5} for sh in range(nsh)] + \
-        [{"name": "block", "part": "block", "weight": 2}] + seq_jobs(3, weight=3) + __import__("vf.runner", fromlist=["x"]).concur_jobs(len(CONCUR_SCEN) - (1 if tier == "quick" else 0))
+        [{"name": "block", "part": "block", "weight": 2}, {"name": "huge", "part": "huge", "weight": 8}] + seq_jobs(3, weight=3) + __import__("vf.runner", fromlist=["x"]).concur_jobs(len(CONCUR_SCEN) - (1 if tier == "quick" else 0))
 
 
 def run_job(job):
@@ -225,6 +236,18 @@ def run_job(job):
                 acc.check("ids", {"seed": seed, "a": a, "trailing": tr.hex(), "tname": tname}, chk_ids)
             if acc.evaluations % 3000 < 40:
                 acc.sample({"a": {k: v for k, v in a.items() if k in ("segwit", "n_in", "seq0", "wit0")}, "bytes": len(raw)})
+    elif job["part"] == "huge":
+        # a transaction larger than the legacy block size / the block weight (one huge witness item), alone and inside a block
+        base = {"segwit": True, "n_in": 1, "n_out": 1, "seq0": "fffffffe", "seqrest": "ffffffff", "ss0": 1, "ssrest": 1, "spk0": 25, "spkrest": 22,
+                "wit0": [72, 33], "witrest": [1], "version": 2, "locktime": 7, "trailing": 0}
+        for n in (1_000_001, 4_000_001):
+            a = dict(base, wit0=[n, 33])
+            acc.evaluations += 2
+            acc.nontrivial += 2
+            acc.ob("huge_tx")
+            acc.check("ids", {"seed": seed, "a": a, "trailing": "00", "tname": "00"}, chk_ids)
+            acc.check("block", {"seed": seed, "as": [dict(base), a, dict(base, segwit=False, wit0=[])]}, chk_block)
+        acc.sample({"huge_tx_witness_item": [1_000_001, 4_000_001]})
     else:
         al = [a for a in itertools.islice(gen, 0, None, 37)]
         for n in (1, 2, 3, 5):
